@@ -3,6 +3,7 @@
 set -e
 cd "$(dirname "$0")"
 export CARGO_NET_OFFLINE=true
+python3 tools/rs2lean.py --repo /repo --out lean/Pearl/Gen
 (cd lean && lake build)
 cp /repo/Cargo.lock harness/Cargo.lock 2>/dev/null || true
 (cd harness && cargo build --offline)
